@@ -104,7 +104,9 @@ impl<'tcx> Cx<'tcx> {
             let rdid = res.map(|i| i.def_id()).unwrap_or(*cdid);
             let resolved = res.is_some() && !matches!(res.unwrap().def, ty::InstanceKind::Virtual(..));
             let is_virtual = res.map(|i| matches!(i.def, ty::InstanceKind::Virtual(..))).unwrap_or(false);
-            let diverges = tcx.fn_sig(rdid).skip_binder().output().skip_binder().is_never();
+            // a closure called directly (`f(x)` with `f` a closure value) resolves to the closure body, which has no fn_sig
+            let sig_did = if tcx.is_closure_like(rdid) { *cdid } else { rdid };
+            let diverges = tcx.fn_sig(sig_did).skip_binder().output().skip_binder().is_never();
             let path = tcx.def_path_str(rdid);
             let path_inst = tcx.def_path_str_with_args(*cdid, gargs);
             if !rdid.is_local() {
